@@ -323,7 +323,11 @@ impl Exec {
 
     pub fn log(&self, e: Event) {
         let mut st = lock(&self.m);
-        st.log.push(e);
+        // once the execution is being torn down threads unwind concurrently:
+        // what they do is no longer part of the (deterministic) execution
+        if st.abort.is_none() {
+            st.log.push(e);
+        }
     }
 
     pub fn new_chan_id(&self) -> usize {
